@@ -281,20 +281,38 @@ MPL_SAME_PROPERTY = {'Text': {('fontsize', 'size'), ('fontweight', 'weight'), ('
 MPL_OTHER_PROPERTY = {'Line2D': {('color', 'markeredgecolor'), ('linewidth', 'markeredgewidth')}}
 
 
+def _keymaps(ctx, f):
+    """{artist: {stored visual key: keyword handed to matplotlib}} — read off the translation's behaviour: the function is
+    evaluated on a visual dictionary holding every valid key, each with a value that names it."""
+    from ..tb import class_tables
+    m = ctx.model
+    rv = m.cls('RegionVisual')
+    valid = class_tables(m, 'RegionVisual').get('valid_keys')
+    ctx.need(isinstance(valid, (list, tuple)) and len(valid) > 20, 'RegionVisual.valid_keys', 'not evaluable')
+    out = {}
+    for art in ('Text', 'Line2D', 'Patch'):
+        km = {}
+        for k in valid:
+            if k == 'default_style':
+                continue
+            self_ = Obj('RegionVisual', {'__data__': DictV([{k: Const('v_' + k)}])}, 'self', rv)
+            r = Evaluator(m).run(f, [self_, Const(art)], {})
+            ctx.need(len(r.returns) == 1 and isinstance(r.returns[0][1], DictV) and not r.returns[0][1].has_symbolic(),
+                     f.qualname, f'translation of {{{k!r}: …}} for {art} not reducible')
+            keys = list(r.returns[0][1].keys())
+            if len(keys) == 1:
+                km[k] = keys[0]
+        out[art] = km
+    return out
+
+
 def r2b(ctx):
     """a caller keyword must win over the stored visual attribute *of the same name*: if the translation renames the
     stored key, the caller's keyword has to be renamed alike (else both reach matplotlib under two names)."""
     m = ctx.model
     rv = m.cls('RegionVisual')
     f = method_or_fail(ctx, rv, '_to_mpl_kwargs')
-    keymaps = {}
-    for n in ast.walk(f.node):
-        if isinstance(n, ast.If) and isinstance(n.test, ast.Compare) and isinstance(n.test.comparators[0], ast.Constant):
-            art = n.test.comparators[0].value
-            for st in n.body:
-                if isinstance(st, ast.Assign) and isinstance(st.value, ast.Dict) and ast.unparse(st.targets[0]) == 'keymap':
-                    keymaps[art] = {ast.literal_eval(k): ast.literal_eval(v) for k, v in zip(st.value.keys, st.value.values)}
-    ctx.need(set(keymaps) >= {'Text', 'Line2D', 'Patch'}, f.qualname, f'keymaps found for {sorted(keymaps)}')
+    keymaps = _keymaps(ctx, f)
     # does any as_artist translate the caller's kwargs with the same map?
     translated = set()
     for ci in m.region_classes('pixel'):
@@ -331,39 +349,6 @@ MPL_KW = {
     'Text': {'color', 'rotation', 'family', 'size', 'style', 'weight', 'fontname', 'fontsize', 'fontstyle', 'fontweight',
              'ha', 'va', 'alpha', 'zorder', 'usetex', 'label'},
 }
-
-
-def _visual_tables(ctx):
-    """(keymaps per artist, removed keys per artist, valid keys) read from RegionVisual."""
-    from ..tb import class_tables
-    m = ctx.model
-    rv = m.cls('RegionVisual')
-    f = method_or_fail(ctx, rv, '_to_mpl_kwargs')
-    keymaps = {}
-    for n in ast.walk(f.node):
-        if isinstance(n, ast.If) and isinstance(n.test, ast.Compare) and isinstance(n.test.comparators[0], ast.Constant):
-            art = n.test.comparators[0].value
-            for st in n.body:
-                if isinstance(st, ast.Assign) and isinstance(st.value, ast.Dict) and ast.unparse(st.targets[0]) == 'keymap':
-                    keymaps[art] = {ast.literal_eval(k): ast.literal_eval(v) for k, v in zip(st.value.keys, st.value.values)}
-    g = method_or_fail(ctx, rv, 'define_mpl_kwargs')
-    removed = {}
-    for art in ('Patch', 'Line2D', 'Text'):
-        ev = Evaluator(m, hooks={m.method(rv, '_define_default_mpl_kwargs').qualname: lambda e, a, k: DictV([{}]),
-                                 f.qualname: lambda e, a, k: DictV([{}])})
-        out = ev.run(g, [Obj('RegionVisual', {}, 'self', rv), Const(art)], {})
-        rk = out.env.get('remove_keys')
-        ctx.need(isinstance(rk, Tup) and all(isinstance(i, Const) for i in rk.items), g.qualname,
-                 f'removed-key list for {art} not evaluable: {show(rk, 120)}')
-        removed[art] = {i.v for i in rk.items}
-    # keys the translation itself consumes (kwargs.pop('<key>', ...))
-    for n in ast.walk(f.node):
-        if isinstance(n, ast.Call) and ast.unparse(n.func) == 'kwargs.pop' and n.args and isinstance(n.args[0], ast.Constant):
-            for art in removed:
-                removed[art].add(n.args[0].value)
-    valid = class_tables(m, 'RegionVisual').get('valid_keys')
-    ctx.need(isinstance(valid, (list, tuple)) and valid, 'RegionVisual.valid_keys', 'not evaluable')
-    return keymaps, removed, list(valid), g
 
 
 def r2c(ctx):
